@@ -68,7 +68,19 @@ def _py(x):
 # undirected
 
 
-@with_history
+def _warmup(h):
+    """Ask the size-restricted model once per present size (results discarded): a split or
+    listing remembered per object must not survive the restoration of the content."""
+    import numpy as np
+    from hypergraphx.generation.configuration_model import configuration_model
+    for k in sorted(set(h.get_sizes())):
+        np.random.seed(0)
+        configuration_model(h, n_steps=1, size=k)
+    np.random.seed(0)
+    configuration_model(h, n_steps=1)
+
+
+@with_history(warmup=_warmup)
 def _build(case):
     from hypergraphx import Hypergraph
     U = case["labels"]
